@@ -370,6 +370,8 @@ def main_check(pid, hname, tier, seed, extra_evidence=None, pre_results=None):
             'obligations': stats.obligations, 'obligation_queries': stats.queries,
             'unsat': stats.unsat, 'sat': stats.sat, 'unknown': stats.unknown,
             'identical_term_or_concrete_checks': stats.concrete_checks,
+            'second_solver_cvc5': {'unsat_verdicts_rechecked': stats.x_checked, 'agree_unsat': stats.x_agree, 'cvc5_unknown_or_timeout': stats.x_unknown,
+                                   'disagree_cvc5_sat': stats.x_disagree, 'note': 'thorough tier: a sample of z3 unsat verdicts (assumptions + path condition + negated goal as SMT-LIB2) is put to the cvc5 1.0.3 binary with a 4 s limit; a disagreement makes the run inconclusive'},
             'solver_s': round(stats.solver_s, 2),
             'float_cross_validation': xval, 'replays': len(rfuts),
             'vacuity_guard': dict(wit, note='cases using LAPACK contract stubs / cases where assumptions+path condition were shown '
@@ -396,6 +398,9 @@ def main_check(pid, hname, tier, seed, extra_evidence=None, pre_results=None):
     if printed:
         return 1
     if harness_errors or inconcl or agg.get('inconclusive'):
+        return 2
+    if stats.x_disagree:
+        print(f"INCONCLUSIVE property={pid}: cvc5 answered sat on {stats.x_disagree} obligation(s) that z3 decided unsat")
         return 2
     if wit['stub_cases'] and wit['witnessed'] * 2 < wit['stub_cases']:
         print(f"INCONCLUSIVE property={pid}: vacuity guard: only {wit['witnessed']}/{wit['stub_cases']} stub cases have a satisfiable witness")
